@@ -87,25 +87,35 @@ ASSUMPTIONS = [
 ]
 BUDGET = {"quick": 60, "thorough": 540}
 FLOORS = {
-    # measured on the unchanged tree (quick, seed 12345): 24 733 cases, 23 886 distinct non-trivial, 335 114 order() calls,
-    # acyclic_checked 305 905, cyclic_rejected 15 088, edges_checked 1 009 583, external_ref_calls 176 182,
-    # return_stats_calls 166 114, line_events 200 M, shapes 1 846
-    "quick": {"evaluations": 11000, "distinct_nontrivial": 10500,
-              "counters": {"order_calls": 150000, "acyclic_checked": 140000, "cyclic_rejected": 6500,
-                           "edges_checked": 450000, "external_ref_calls": 80000, "return_stats_calls": 75000,
+    # measured (quick, seed 0, tree at d4e40d1): 26 233 cases, 25 150 distinct non-trivial, 339 614 order() calls,
+    # acyclic_checked 324 204, cyclic_rejected 15 251, edges_checked 1 093 211, external_ref_calls 177 477,
+    # return_stats_calls 167 886, line_events 210 M, tower_programs 1 500 (1 273 with the data-root feature), shapes 2 607
+    "quick": {"evaluations": 12000, "distinct_nontrivial": 11500,
+              "counters": {"order_calls": 155000, "acyclic_checked": 145000, "cyclic_rejected": 6800,
+                           "edges_checked": 490000, "external_ref_calls": 80000, "return_stats_calls": 75000,
                            "borrowed_graphs": 230, "scheduler_order_calls": 50, "big_graphs": 220,
-                           "line_events": 80000000},
-              "sets": {"shapes": 800, "borrowed_recipes": 10}},
-    "thorough": {"evaluations": 1, "distinct_nontrivial": 1},
+                           "tower_programs": 700, "data_root_only_under_striplists_programs": 550,
+                           "line_events": 90000000},
+              "sets": {"shapes": 1100, "borrowed_recipes": 10}},
+    # measured (thorough, seed 0, tree before d6fa8cf, without the 40 000 tower programs added afterwards): 257 785 cases,
+    # 220 244 distinct non-trivial, 1 504 780 order() calls, acyclic_checked 1 274 691, cyclic_rejected 182 597,
+    # edges_checked 6 911 937, external_ref_calls 693 710, return_stats_calls 688 360, line_events 1 030 M, shapes 23 668
+    "thorough": {"evaluations": 130000, "distinct_nontrivial": 110000,
+                 "counters": {"order_calls": 700000, "acyclic_checked": 580000, "cyclic_rejected": 85000,
+                              "edges_checked": 3200000, "external_ref_calls": 320000, "return_stats_calls": 320000,
+                              "borrowed_graphs": 2400, "scheduler_order_calls": 550, "big_graphs": 5500,
+                              "tower_programs": 18000, "data_root_only_under_striplists_programs": 14000,
+                              "line_events": 450000000},
+                 "sets": {"shapes": 11000, "borrowed_recipes": 10}},
 }
 EXHAUSTIVE_SPACE = {
     "quick": "all DAG shapes on n<=4 nodes (upper-triangular adjacency: 1+1+2+8+64) x all kind vectors over {T,N,S,D}^n x "
-             "external refs {none, shared, per-node} x return_stats {off,on} x key styles {str,int,tuple}; all single "
+             "external refs {none, shared, per-node} x {(str keys, return_stats off), (str, on), (int, off), (tuple, on)}; all single "
              "back-edge (incl. self-loop) cyclic variants of the n<=4 shapes x uniform kind vectors x external refs x return_stats",
     "thorough": "all DAG shapes on n<=4 nodes x all kind vectors over {T,N,S,D}^n x external refs {none, shared, per-node} x "
                 "return_stats x key styles {str,int,tuple} x {identity, reversed} labelling; all single back-edge cyclic "
                 "variants of the n<=3 shapes x all kind vectors and of the n=4 shapes x uniform + 12 sampled kind vectors; "
-                "all 1024 shapes on n=5 x uniform + 6 sampled kind vectors x the 18 variants",
+                "all 1024 shapes on n=5 x uniform + 6 sampled kind vectors x the 12 quick variants",
 }
 LEVEL_NOTE = ("trusts the harness' own edge lists / structural walker and the small closure routine; order() and everything "
               "it calls is the code under observation")
@@ -673,10 +683,13 @@ def _variants(case):
     v = case["variants"]
     if v == "cyc":
         return [(ext, stats, STYLES[(ext + stats) % 3], 0, False) for ext in (0, 1, 2) for stats in (False, True)]
-    if v in ("all", "all2"):
-        perms = (0, "rev") if v == "all2" else (0,)
+    if v == "all":
+        # 12 variants: external refs x {(str, stats off), (str, stats on), (int, stats off), (tuple, stats on)}
+        return [(ext, stats, style, 0, False) for ext in (0, 1, 2)
+                for style, stats in (("str", False), ("str", True), ("int", False), ("tuple", True))]
+    if v == "all2":
         return [(ext, stats, style, perm, False)
-                for ext in (0, 1, 2) for stats in (False, True) for style in STYLES for perm in perms]
+                for ext in (0, 1, 2) for stats in (False, True) for style in STYLES for perm in (0, "rev")]
     rng = random.Random(case["vseed"])
     out = []
     for _ in range(3 if not case.get("big") else 2):
